@@ -34,6 +34,15 @@ impl Cfg {
     pub fn filter_enabled(&self) -> (r: bool) ensures r == self.filter { unimplemented!() }
     #[verifier::external_body]
     pub fn output_mode(&self) -> (r: DataOutputMode) ensures (r is None) == (self.out is None) { unimplemented!() }
+    // further options of the Config traits (so that a changed body using them stays checkable); their values are arbitrary
+    #[verifier::external_body] pub fn custom_checks_enabled(&self) -> bool { unimplemented!() }
+    #[verifier::external_body] pub fn mute_errors(&self) -> bool { unimplemented!() }
+    #[verifier::external_body] pub fn skip_payload(&self) -> bool { unimplemented!() }
+    #[verifier::external_body] pub fn disable_styled_views(&self) -> bool { unimplemented!() }
+    #[verifier::external_body] pub fn max_tolerate_errors(&self) -> u32 { unimplemented!() }
+    #[verifier::external_body] pub fn any_errors_exit_code(&self) -> Option<u8> { unimplemented!() }
+    #[verifier::external_body] pub fn filter_link(&self) -> Option<u8> { unimplemented!() }
+    #[verifier::external_body] pub fn filter_fee(&self) -> Option<u16> { unimplemented!() }
 }
 pub struct InputScanner;
 pub struct StatType;
